@@ -92,7 +92,9 @@ def match_table(prog: Program) -> RuleResult:
     # relation between the pattern's type P and the attribute's declared type A
     RELS = {"same": dict(P_le_A=True, A_le_P=True), "pattern-is-subtype": dict(P_le_A=True, A_le_P=False),
             "pattern-is-supertype": dict(P_le_A=False, A_le_P=True), "unrelated": dict(P_le_A=False, A_le_P=False)}
-    for known_attr in (False, True):
+    # ... and whether the attribute is declared Optional: then its value can also be None, which is an instance of no pattern type
+    for optional in (False, True):
+      for known_attr in (False, True):
         for has_type in (False, True):
             for rel, facts in RELS.items():
                 if not (known_attr and has_type) and rel != "unrelated":
@@ -107,6 +109,8 @@ def match_table(prog: Program) -> RuleResult:
                             ok = ok and value == has_type
                         elif atom[0] == "is":
                             ok = ok and value == (rel == "same")
+                        elif atom[0] == "truth" and atom[1].endswith(".is_optional") and "attr" in atom[1]:
+                            ok = ok and value == optional
                         elif atom[0] == "issubclass":
                             a, b = side(atom[1]), side(atom[2])
                             ok = ok and value == (True if a == b else facts[f"{a}_le_{b}"])
@@ -121,11 +125,11 @@ def match_table(prog: Program) -> RuleResult:
                             v = val.get(("truth", repr(v)), repr(v))
                         outs.add(bool(v) if not isinstance(v, str) else v)
                 # the elements of the attribute are known to be A; they have to be checked against P unless every A is a P
-                want = (not known_attr) or (has_type and not facts["A_le_P"])
-                lab = f"attr_type_known={int(known_attr)},pattern_type={int(has_type)},relation={rel if known_attr and has_type else 'n/a'}"
+                want = (not known_attr) or (has_type and (optional or not facts["A_le_P"]))
+                lab = f"attr_type_known={int(known_attr)},pattern_type={int(has_type)},relation={rel if known_attr and has_type else 'n/a'}" + (",optional=1" if optional else "")
                 r.check(outs == {want}, f"AttributeAssignment.is_type_filter_needed#{lab}", site(g), lab, f"{want}",
                         f"{lab}: code says {sorted(map(str, outs))}; a nested match constrains the attribute value's type, so a type filter is needed unless the attribute's declared type "
-                        f"already guarantees the pattern's type ({want}) - main=match(Other)(name='a') on a Part-typed attribute must not return the boxes whose Part is named 'a'")
+                        f"already guarantees the pattern's type ({want}) - main=match(Other)(name='a') on a Part-typed attribute must not return the boxes whose Part is named 'a', spare=match(Part) on an Optional[Part] attribute must not return the cars without a spare")
     # flatten + filter in resolve
     h = prog.method(aa.qual, "resolve", inherited=False)
     paths = explore(prog, h, [Sym("self"), Sym("parent_match")], inline=lambda q: False)
